@@ -15,7 +15,9 @@ RULE = ("past-time specs (depth<=5, bounds 0..4): typed and untyped random formu
         "sub-formula text is duplicated, and multi-assertion texts whose later assertions reference earlier ones "
         "(stateful sub-specifications referenced 1-3 times); traces of length 1..12 over small dyadic values; in one case in five "
         "set_sampling_period() is called again between two updates with the period and unit already configured (only the tolerance "
-        "may differ). "
+        "may differ); about one case in five is monitored after pastify() (the identity on these specifications), among them "
+        "the stream pastified-prev-sprev (strong previous alone, under once / historically / since, and next to the weak "
+        "previous of the same operand). "
         "distinct by (spec text, data); non-trivial when the online outputs are not a constant +-inf list.")
 EXPLANATION = ("theorems: C02_run_eq_rho (fresh monitor fed n samples returns rho at every step, all formulas without future "
                "operators), rho_online_prefix (value at t depends on samples <= t only), C02_online_eq_offline (i-th update = "
@@ -40,6 +42,8 @@ def gen_case(rng):
     r = rng.random()
     d = rng.choice([1, 2, 2, 3, 3, 4, 5])
     n = 1 if rng.random() < 0.1 else rng.randint(2, 12)
+    if r < 0.06:
+        return gen_pastified_prev(rng, g, n)
     if r < 0.45:
         f = g.formula(d)
         return {"stream": "typed", "f": f, "n": n, "asserts": None}
@@ -97,6 +101,28 @@ def gen_case(rng):
     for nm, body in defs:
         env[nm] = subst(body, env)
     return {"stream": "multi-assertion", "f": env["out"], "n": n, "asserts": defs}
+
+
+def gen_pastified_prev(rng, g, n):
+    """Past-only specification monitored online after pastify() (the documented workflow; on a specification without future
+    operators pastify() is the identity) in which the strong previous occurs: alone, under a latching operator (once,
+    historically, since, which carry the value of sample 0 to every later sample), and next to the weak previous of the same
+    operand (the two print different names and must keep their own operators and initial values, -inf and +inf)."""
+    s = g.formula(rng.choice([1, 1, 2]))
+    sp, wp = ("t1", "sprev", s), ("t1", "prev", s)
+    other = g.formula(1)
+    shape = rng.choice(["alone", "latch", "latch", "both", "both", "since", "both-latch"])
+    if shape == "alone":
+        f = sp
+    elif shape == "latch":
+        f = ("t1", rng.choice(["once", "hist"]), sp if rng.random() < 0.6 else ("b", rng.choice(["and", "or"]), sp, other))
+    elif shape == "both":
+        f = ("b", rng.choice(["and", "or", "implies"]), *((wp, sp) if rng.random() < 0.5 else (sp, wp)))
+    elif shape == "since":
+        f = ("t2", "since", other, sp) if rng.random() < 0.5 else ("t2", "since", sp, other)
+    else:
+        f = ("b", rng.choice(["and", "or"]), ("t1", "once", sp), ("t1", "hist", wp))
+    return {"stream": "pastified-prev-sprev", "f": f, "n": n, "asserts": None, "pastify": True}
 
 
 def subst(f, env):
@@ -179,19 +205,22 @@ def run_impl(case):
         on = run_online_reconf(text, vs, data, case["n"], case["reconf"], period=case.get("period"), extra_decl=extra, struct=struct,
                                extra_entries=case.get("extra_entries"))
     else:
-        on = impl.run_online_discrete(text, vs, data, case["n"], extra_decl=extra, struct=struct, extra_entries=case.get("extra_entries"), **kw)
+        on = impl.run_online_discrete(text, vs, data, case["n"], extra_decl=extra, struct=struct, extra_entries=case.get("extra_entries"),
+                                      pastify=bool(case.get("pastify")), **kw)
     off = impl.eval_offline_discrete(text, vs, data, case["n"], extra_decl=extra, struct=struct, **kw)
     return text, on, off
 
 
 def check_case(ctx, case, m_on, m_rho, m_gen=None):
     text, on, off = run_impl(case)
-    rep = {"reconf": case.get("reconf"), "extra_entries": case.get("extra_entries"), "period": case.get("period"), "struct": list(case.get("struct") or ()), "spec": text, "data": case["data"], "n": case["n"], "formula": F.to_proto(case["f"]),
+    rep = {"pastify": bool(case.get("pastify")), "reconf": case.get("reconf"), "extra_entries": case.get("extra_entries"), "period": case.get("period"), "struct": list(case.get("struct") or ()), "spec": text, "data": case["data"], "n": case["n"], "formula": F.to_proto(case["f"]),
            "asserts": [[nm, F.to_proto(b)] for nm, b in case["asserts"]] if case["asserts"] else None,
            "monitor": "discrete online", "impl_online": on, "impl_offline": off, "model_online": m_on, "model_rho": m_rho}
     if on[0] != "ok":
         return Violation("update() raised %s on past-time spec %r (n=%d)" % (on[1:], text, case["n"]), rep, stream=case["stream"]), None
     outs = on[1]
+    if case.get("pastify"):
+        text = text + "   [monitored after pastify()]"
     if case.get("reconf"):
         text = text + "   [set_sampling_period(%s) repeated with tolerance %s]" % (
             ", ".join(str(x) for x in (case.get("period") or (1, "s"))),
@@ -253,6 +282,10 @@ def explore(ctx, rng, count):
         # set_sampling_period() called again between two updates with the period and unit already configured (at most the
         # tolerance differs): the state of the operators and hence the later values must not be affected
         c["reconf"] = gen_reconf(rng, c["n"]) if c["n"] >= 2 and rng.random() < 0.2 else None
+        # pastify() before the first update (the documented online workflow): the identity on a specification without future
+        # operators, so the updates are still the offline robustness.  (Not combined with the mid-run reconfiguration runner.)
+        if c.get("pastify") or (not c["reconf"] and rng.random() < 0.15):
+            c["pastify"], c["reconf"] = True, None
         if not disc.known_region(ctx, c, REGIONS):
             cases.append(c)
         else:
@@ -269,6 +302,8 @@ def explore(ctx, rng, count):
         ctx.count("stream:" + c["stream"])
         if c.get("reconf"):
             ctx.count("stream:reconfigure-mid-run")
+        if c.get("pastify"):
+            ctx.count("stream:pastified")
         for op in set(F.ops(c["f"])):
             ctx.count("op:" + op)
         v, d = check_case(ctx, c, m_on, m_rho, m_gen)
@@ -292,7 +327,7 @@ def explore(ctx, rng, count):
 def case_of_replay(obj):
     c = {"stream": "replay", "f": F.from_proto(obj["formula"]), "n": obj["n"],
          "data": {k: [float(x) for x in v] for k, v in obj["data"].items()}, "asserts": None, "struct": obj.get("struct") or [], "period": obj.get("period"), "extra_entries": obj.get("extra_entries"),
-         "reconf": obj.get("reconf")}
+         "reconf": obj.get("reconf"), "pastify": bool(obj.get("pastify"))}
     if obj.get("asserts"):
         c["asserts"] = [(nm, F.from_proto(b)) for nm, b in obj["asserts"]]
     return c
